@@ -121,12 +121,14 @@ claims = {
   note=TB + " Defect found while writing this check and repaired: D17 (regex example changed on every ToJson).",
   ref="§6 C16", category="other"),
  "C17": dict(
-  text="Panic clause only, thin: schemaObjectFromExchangeSchema's explicit panics are unreachable under its precondition (well-formed exchange schema whose notation is not "
-       "'empty'), and newSchemas - which converts every user type - must establish it for every user type of a built catalog. It cannot for `TYPE @x empty`: recorded known "
-       "finding D13 (ToOpenAPIJson panics). Two structural clauses that are plain Go are proved: a path item, once stored in paths, is never replaced (so every operation "
-       "assigned to it is kept: closure of fillPaths) and assignOperation fills the slot of its method; same-code responses are all kept (newResponseAnyOf). $ref resolution, "
-       "parameters and response keys are produced inside jsight-schema-core/openapi and are not decided.",
-  note=TB + " userTypesOK (the shape of a built catalog's user types) is a precondition that the build is not yet proved to establish.", ref="§6 C17", category="other"),
+  text="Panic clause, decided mechanically on the SSA: both OpenAPI accessors of kit.JApi run the conversion under a deferred module function that calls recover() and "
+       "stores the error result (recover-at-boundary), and every error value the exporter builds has exactly the dynamic type its panicking type assertion expects "
+       "(error-dynamic-type). Structural clauses that are plain Go, proved by SMT: a path item, once stored in paths, is never replaced (closure of fillPaths) and "
+       "assignOperation fills the slot of its method, so every HTTP interaction lands in paths[path][method]; same-code responses are all kept (newResponseAnyOf); every "
+       "property of a query/path/header schema yields one declared parameter (paramsFromJSchema). A failed obligation is replayed by exporting built-in and testdata documents "
+       "with the real code (thorough always runs this bounded cross-check over 600 documents; it found D23). $ref resolution and response keys are produced inside "
+       "jsight-schema-core/openapi and are not decided.",
+  note=TB + " Defects found by this check and repaired: D13 (TYPE @x empty), D23 (additionalProperties decimal/enum/mixed): ToOpenAPIJson panicked.", ref="§0.2, §6 C17", category="other"),
  "C19": dict(
   text="Proof of the ban-check obligations at every place a directive keyword is consumed: setCurrentDirective (all directives, including MACRO, PASTE and "
        "bodies of unused macros), processInclude (INCLUDE) and addDirective return the not-allowed error located at the keyword when the kind is banned; "
